@@ -72,6 +72,11 @@ Definition chk_global (c : mcase) : nat :=
       else if negb (gp_n_todo g =? todo) then 5%nat
       else 0%nat
   end.
+(* clean_lockfiles: planted stale lock files vs the ones remaining *)
+Definition chk_locks (c : Z * list (list Z) * list (list Z)) : bool :=
+  let '(level, planted, remaining) := c in
+  let to_pos := fun l => match l with [n; x; y] => (n, x, y) | _ => (0, 0, 0) end in
+  zll_eqb (map (fun p => let '(n, x, y) := p in [n; x; y]) (clean_lockfiles level (map to_pos planted))) remaining.
 (* the update rectangles of every input, through the model's own input_ops *)
 Definition dummy_px : @pixels unit := fun _ _ => None.
 Definition mt_updates (ds : list fits_desc) (inv : bool) : option (list (list (list Z))) :=
@@ -397,6 +402,35 @@ def model_updates(keys):
     return out
 
 
+def lock_cases(rng, n, base):
+    """Plant stale *.lock files, call the real clean_lockfiles, list what remains."""
+    from toasty.pyramid import PyramidIO, Pos
+    out = []
+    for _ in range(n):
+        level = rng.randint(0, 3)
+        fmt = rng.choice(("fits", "npy", "png"))
+        shutil.rmtree(base, ignore_errors=True)
+        pio = PyramidIO(base, default_format=fmt)
+        planted = set()
+        for _ in range(rng.randint(0, 12)):
+            n_ = rng.choice((level, level, level, level + 1, max(0, level - 1)))
+            hi = 2 ** n_ + (1 if rng.random() < 0.2 else 0)
+            planted.add((n_, rng.randrange(hi), rng.randrange(hi)))
+        planted = sorted(planted)
+        for pos in planted:
+            path = pio.tile_path(Pos(*pos)) + ".lock"
+            open(path, "w").close()
+        pio.clean_lockfiles(level)
+        remaining = []
+        for pos in planted:
+            n_, x, y = pos
+            if os.path.exists(os.path.join(base, str(n_), str(y), f"{y}_{x}.{fmt}.lock")):
+                remaining.append(pos)
+        shutil.rmtree(base, ignore_errors=True)
+        out.append((level, planted, remaining))
+    return out
+
+
 # ------------------------------------------------------------------ driver
 
 def case_json(layout, variant):
@@ -418,7 +452,7 @@ def offgrid_global_cases(rng, n):
 def run(ctx, V):
     rng = common.rng_for(ctx["seed"], "C09")
     tier = ctx["tier"]
-    n_layouts = 22 if tier == "quick" else 150
+    n_layouts = 34 if tier == "quick" else 150
     runs = []
     for _ in range(n_layouts):
         layout = gen_layout(rng, tier)
@@ -448,6 +482,10 @@ def run(ctx, V):
         stats["inputs"] += len(paths)
         if len(set(variant["parities"])) > 1:
             stats["mixed_parity"] += 1
+        rs = layout["rects"]
+        if any(a[0] < b[0] + b[2] and b[0] < a[0] + a[2] and a[1] < b[1] + b[3] and b[1] < a[1] + a[3]
+               for ia, a in enumerate(rs) for b in rs[ia + 1:]):
+            stats["overlap_runs"] += 1
         if obs is None:
             stats["rejected"] += 1
             continue
@@ -507,6 +545,19 @@ def run(ctx, V):
         V.disagreement(RELNAMES.get(code, str(code)), case_json(layout, variant), "model value",
                        dict(observed=obs, error=err), pf)
 
+    # clean_lockfiles on planted stale lock files
+    lcs = lock_cases(rng, 40 if tier == "quick" else 300, str(work / "c09_locks"))
+    lterms = ["(%s, %s, %s)" % (g_Z(lv), g_list([c08.g_zl(p) for p in pl]), g_list([c08.g_zl(p) for p in rem]))
+              for lv, pl, rem in lcs]
+    badl = common.coq_eval_sharded(COQ_DEFS, lterms, "chk_locks", ["Model.Study", "Model.MultiTan"],
+                                   shard=200, jobs=4, name="c09l")
+    for i in badl:
+        lv, pl, rem = lcs[i]
+        stale = [p for p in rem if p[0] == lv and 0 <= p[1] < 2 ** lv and 0 <= p[2] < 2 ** lv]
+        V.disagreement("MultiTan.v clean_lockfiles ~ pyramid.py clean_lockfiles", dict(locks=dict(level=lv, planted=pl)),
+                       "all lock files of the level's positions removed, others kept", dict(remaining=rem), bool(stale))
+    stats["lock_cases"] = len(lcs)
+
     # tiles: model rectangles, real tiling of the mosaic, predicate, astrometry, locks
     ups = model_updates([(p["descs"], p["toks"], p["inv"]) for p in pending])
     for p, up in zip(pending, ups):
@@ -551,7 +602,7 @@ def run(ctx, V):
             V.disagreement(rel, cj, e, dict(observed=o, predicate=pred), bool(pred))
     samples = [case_json(l, v) for (l, v) in runs[:2]]
     stats["parallel"] = {str(k): v for k, v in stats["parallel"].items()}
-    return dict(evaluations=len(mterms) + len(pending), distinct_nontrivial=len(nontrivial),
+    return dict(evaluations=len(mterms) + len(pending) + len(lcs), distinct_nontrivial=len(nontrivial),
                 rule="random mosaics (<= 1500 px, sizes clustered at 255..257/511..513/1023..1025), 1-6 rectangles "
                      "covering the bounding box incl. overlapping and tile-boundary-hugging ones, NaN borders 0/1/3/17, "
                      "reference pixel inside or outside the mosaic (integer or half-integer), CDELT- or CD-form headers, "
